@@ -414,7 +414,7 @@ def ensure_declared_maps(ex, modifies):
                         pass
 
 
-def havoc(ex, fr, modifies, tag, base_alloc=None):
+def havoc(ex, fr, modifies, tag, base_alloc=None, written=None, collect=False, local_frame=None):
     """havoc the declared frame.  Objects that were not allocated at `base_alloc` may change freely: for a call
     that is the allocation state at the call, for a loop it is the state at *function entry* (objects the
     function itself created before the loop are its own)."""
@@ -424,19 +424,28 @@ def havoc(ex, fr, modifies, tag, base_alloc=None):
     esc_alloc = base_alloc if base_alloc is not None else old_alloc
     new_alloc = ex.fresh(f"ALLOC_{tag}", z3.ArraySort(REF, BOOL))
     o = z3.Const(f"o?{next(ex.cnt)}", REF)
-    ex.assume(z3.ForAll([o], z3.Implies(old_alloc[o], new_alloc[o]), patterns=[old_alloc[o]]))
+    ex.assume(z3.ForAll([o], z3.Implies(old_alloc[o], new_alloc[o]), patterns=[old_alloc[o], new_alloc[o]]))
     ex.alloc = new_alloc
+    lconds = mod_conditions(ex, fr, local_frame) if local_frame is not None else None
     for key in sorted(ex.heap.keys()):
         field, sk = key
         cs = [c for (p, c) in conds if field_matches(p, field)]
-        if not cs and base_alloc is None:
+        if not cs and (base_alloc is None or collect):
             continue
+        if not cs and written is not None and key not in written:
+            continue      # loop: no path through the body writes this map (write sets are collected in a first pass and re-checked)
         if not cs and ex.heap[key].get_id() == ex.__dict__.get("_init_ids", {}).get(key):
             continue      # never written so far: objects created by the function have not touched this map yet
         m = ex.heap[key]
         nm = ex.fresh(f"H_{field}_{tag}", m.sort())
         o = z3.Const(f"o?{next(ex.cnt)}", REF)
-        may = z3.Or([c(o) for c in cs] + [z3.Not(esc_alloc[o])])
+        if lconds is None:
+            may = z3.Or([c(o) for c in cs] + [z3.Not(esc_alloc[o])])
+        else:
+            # loop with a declared local frame: of the objects the function created *before* the loop only the declared ones
+            # may change (checked at the end of the body: loop_frame_obligations); objects created inside the loop are free
+            lcs = [c(o) for (p, c) in lconds if field_matches(p, field)]
+            may = z3.Or([c(o) for c in cs] + [z3.And(z3.Not(esc_alloc[o]), z3.Or([z3.Not(old_alloc[o])] + lcs))])
         ex.assume(z3.ForAll([o], z3.Implies(z3.Not(may), nm[o] == m[o]), patterns=[nm[o]]))
         ex.heap[key] = nm
     ex.good_heap()
@@ -463,6 +472,24 @@ def frame_obligations(ex, fr, con, heap0, alloc0, loc):
         may = z3.Or([c(o) for c in cs]) if cs else z3.BoolVal(False)
         goal = z3.Implies(z3.And(alloc0[o], z3.Not(may)), m_end[o] == m0[o])
         ex.oblige("frame", field, goal, con.tags | {"frame"}, loc, f"only declared objects change in field {field}")
+
+
+def loop_frame_obligations(ex, fr, local_frame, head_heap, entry_alloc, fn_alloc, loc, site, tags):
+    """loop with a declared local frame: an object that existed at loop entry, was created by this function and is not
+    declared may not be changed by the body"""
+    lconds = mod_conditions(ex, fr, local_frame)
+    for key in sorted(ex.heap.keys()):
+        m_end = ex.heap[key]
+        m0 = head_heap.get(key)
+        if m0 is None or m0.eq(m_end):
+            continue
+        field, sk = key
+        lcs = [c for (p, c) in lconds if field_matches(p, field)]
+        o = ex.fresh("lframe_o", REF)
+        may = z3.Or([c(o) for c in lcs]) if lcs else z3.BoolVal(False)
+        hyp = [entry_alloc[o], z3.Not(may)] + ([z3.Not(fn_alloc[o])] if fn_alloc is not None else [])
+        ex.oblige("loop-frame", field, z3.Implies(z3.And(hyp), m_end[o] == m0[o]), tags | {"frame"}, loc,
+                  f"the loop body changes field {field} only of declared local objects or of objects it created", site=site)
 
 
 def invariant_at(ex, inv, o_term, fi_for_names=None):
